@@ -58,7 +58,11 @@ ShouldCutoff(s, n, old, new) ==
     [] c.c = "min1"   -> F1("min1", old) = F1("min1", new)
     [] c.c = "le"     -> new[2] <= old[2]
     [] c.c = "dep"    -> s.chgAt[c.in] = s.chgAt[n]
-CutoffLogged(c) == c.c \in {"min1", "le", "beq"}
+    [] c.c = "boom"   -> old = new      \* a user cutoff function that panics when shown BoomVal (C13)
+CutoffLogged(c) == c.c \in {"min1", "le", "beq", "boom"}
+\* crash points of user closures other than node functions (C13): the value that sets them off
+BoomVal == <<"i", 1, 0>>
+CutoffPanics(s, n, old, new) == old # <<"none", 0, 0>> /\ s.cutoff[n].c = "boom" /\ new = BoomVal
 
 ---------------------------------------------------------------------------
 (* Generic helpers                                                          *)
@@ -354,6 +358,8 @@ LinkChildren(s, n, i, h) ==
 ObsChange(s, n, on) ==
   IF ~Ok(s) \/ ~s.valid[n] \/ Kind(s, n) # "expert" THEN s ELSE
   LET s1 == [s EXCEPT !.obsLog = Append(@, [n |-> n, on |-> on, round |-> s.round])] IN
+  \* the user's on_observability_change callback; an armed one panics once (C13 crash point)
+  IF on /\ n \in s.armed THEN Fail([s1 EXCEPT !.armed = @ \ {n}], "panic:user") ELSE
   IF on THEN s1 ELSE [s1 EXCEPT !.fireAll[n] = TRUE, !.ninv[n] = 0]
 
 BecameNecessary(s, n) ==
@@ -628,6 +634,8 @@ RunRecipe(s, b, rc, v) ==
                     [s |-> [s1 EXCEPT !.memos[rc.m].table = Append(tb, [key |-> v, node |-> s1.n]),
                                       !.curScope = s.curScope],
                      node |-> s1.n]
+    [] rc.r = "boom"  ->   \* the bind closure panics when its input is BoomVal (C13)
+         IF v = BoomVal THEN [s |-> Fail(s, "panic:user"), node |-> 0] ELSE RunRecipe(s, b, rc.then, v)
     [] rc.r = "leak"  ->   \* hand the node built by rc.then to the harness
          LET j == RunRecipe(s, b, rc.then, v)
          IN [s |-> [j.s EXCEPT !.leaked = Append(@, j.node)], node |-> j.node]
@@ -685,7 +693,7 @@ ChildChanged(s, p, c, ci0, old) ==
                 Up(t, i) == IF ~Ok(t) \/ i > Len(t.par[p]) THEN t ELSE
                             IF ~Alive(t, t.par[p][i]) THEN Up(t, i + 1)
                             ELSE Up(ChildChanged(t, t.par[p][i], p, t.cip[p][i], selfOld), i + 1)
-            IN Up(s1, 1)
+            IN IF CutoffPanics(s, p, selfOld, selfNew) THEN Fail(s1, "panic:user") ELSE Up(s1, 1)
     [] OTHER -> s
 
 \* parent_iter_can_recompute_now: returns [s, now].
@@ -744,7 +752,10 @@ ChangeValue(s, n, new) ==
       s1 == [s EXCEPT !.val[n] = new,
                       !.cutLog = IF old # NoVal /\ CutoffLogged(s.cutoff[n])
                                  THEN Append(@, [n |-> n, old |-> old, new |-> new]) ELSE @]
-  IN ChangeValueManual(s1, n, old, ~cut, TRUE)
+  IN IF CutoffPanics(s, n, old, new)
+     THEN \* maybe_change_value took the old value out before consulting the cutoff (node.rs:1763)
+          Fail([s1 EXCEPT !.val[n] = NoVal], "panic:user")
+     ELSE ChangeValueManual(s1, n, old, ~cut, TRUE)
 
 ---------------------------------------------------------------------------
 (* C12: ownership.  Strong references implied by a state; Retained = reachable from the roots  *)
@@ -758,7 +769,7 @@ RecipeRefs(rc) ==
     [] rc.r = "alt" -> UNION {RecipeRefs(rc.alts[i]) : i \in 1..Len(rc.alts)}
     [] rc.r = "bind" -> {rc.over} \cup RecipeRefs(rc.inner)
     [] rc.r = "junk" -> RecipeRefs(rc.pre) \cup RecipeRefs(rc.then)
-    [] rc.r = "leak" -> RecipeRefs(rc.then)
+    [] rc.r \in {"leak", "boom"} -> RecipeRefs(rc.then)
     [] OTHER -> {}
 StrongOut(s, n) ==
   LET d == s.def[n]
@@ -1185,7 +1196,7 @@ InitState(maxH) ==
    round |-> 0, inv |-> <<>>, runs |-> <<>>, cutLog |-> <<>>, cbLog |-> <<>>, obsLog |-> <<>>,
    invLog |-> <<>>, readLog |-> <<>>, retLog |-> <<>>, dlv |-> <<>>, order |-> <<>>,
    rhsLog |-> <<>>, lastRan |-> <<>>, lastChg |-> <<>>, envAtStart |-> <<>>, subsAtBegin |-> <<>>,
-   ostateH |-> <<>>, osubsH |-> <<>>]
+   ostateH |-> <<>>, osubsH |-> <<>>, armed |-> {}]
 
 ApiVar(s, v)   == NewNode(s, [k |-> "var", init |-> v], 0)          \* IncrState::var: Scope::Top
 ApiConst(s, v) == NewNode(s, [k |-> "const", init |-> v], s.curScope)
@@ -1238,6 +1249,8 @@ ApiXSum(s, sel, ins) ==
                          ctl |-> [mode |-> "sum", x |-> e, ins |-> ins]], s1.curScope)
   IN ExpertAddDep(s2, e, s2.n, "none")
 ApiBind(s, lhs, recipe) == NewBind(s, lhs, recipe, s.curScope)
+\* test device: make the observability callback of expert node n panic the next time n becomes observable
+ApiXArm(s, n) == [s EXCEPT !.armed = @ \cup {n}]
 ApiSetCutoff(s, n, c) == [s EXCEPT !.cutoff[n] = c]
 
 \* State::observe (state.rs:215-221)
